@@ -83,7 +83,7 @@ MIN_MONITORS = {"*": {"grid.formula": 20, "grid.count": 20, "index.slim_for_sub_
 SUB_MAX = 8
 FRACS = (0.5, 0.99, 0.9999)
 TOLS = (None, 1e-3, 1e-1, 0.0)
-SCHEDULES = ([2, 4], [2, 4, 8], [3, 5], [4], [1, 2, 4], [1, 4])
+SCHEDULES = ([2, 4], [2, 4, 8], [3, 5], [4], [1, 2, 4], [1, 4], [4, 2, 8], [8, 4])   # the schedule is followed in the order given
 SCHEDULES_THOROUGH = SCHEDULES + ([2, 4, 8, 16],)
 TIE = 1e-9
 
